@@ -126,16 +126,17 @@ func TestVerif_C31_Close(t *testing.T) {
 	rec := vstat.New(t, "C31", "close",
 		"real single-node Store; gate holder kind in {binary backup into a blocking writer, compressed backup, white-box CAS, concurrent user snapshot} x hold d in {0,50,300,1000,3000 ms} or generated in 1.1-1.6 s, 2.4-3.7 s, now and then 5.0-5.8 s (thorough: up to 12.5 s) x Close(wait) offset (0, inside, just before release, after release) x snapshot-on-close x wait; non-trivial = the gate was still held when Close was called; distinct by (kind,hold,offset,flags)")
 	rapid.Check(t, func(rt *rapid.T) {
+		defer g8bRecoverInfra(rec, t)
 		c := c31Gen(rt)
 		dir, err := os.MkdirTemp("", "c31-")
 		if err != nil {
-			rt.Skip("tempdir")
+			g8bInfra("tempdir")
 		}
 		defer os.RemoveAll(dir)
 		n, err := g8bOpenSingle("", dir, func(s *Store) { s.NoSnapshotOnClose = !c.SnapOnClose })
 		if err != nil {
 			t.Logf("infrastructure: %v", err)
-			rt.Skip("store did not come up")
+			g8bInfra("store did not come up")
 		}
 		s := n.S
 		closed := false
@@ -151,7 +152,7 @@ func TestVerif_C31_Close(t *testing.T) {
 			stmts = append(stmts, fmt.Sprintf("INSERT INTO t(v) VALUES('%0200d')", i))
 		}
 		if _, _, err := g8bExec(s, true, stmts...); err != nil {
-			rt.Skip("setup write failed: " + err.Error())
+			g8bInfra("setup write failed: " + err.Error())
 		}
 
 		held := make(chan struct{})
@@ -176,7 +177,7 @@ func TestVerif_C31_Close(t *testing.T) {
 			}()
 		case "cas":
 			if err := s.snapshotCAS.Begin("snapshot"); err != nil {
-				rt.Skip("gate unexpectedly busy")
+				g8bInfra("gate unexpectedly busy")
 			}
 			close(held)
 			go func() {
@@ -202,7 +203,7 @@ func TestVerif_C31_Close(t *testing.T) {
 		case <-held:
 		case <-time.After(60 * time.Second):
 			<-done
-			rt.Skip("holder did not reach the gate")
+			g8bInfra("holder did not reach the gate")
 		}
 		if c.OffsetMs > 0 {
 			time.Sleep(time.Duration(c.OffsetMs) * time.Millisecond)
